@@ -31,6 +31,8 @@ SEGS = ['..', '.', '', 'sub', 'f.txt', 'g.txt', 'root', 'root_evil', 'rootX', 'R
 # absolute spellings of W/root, W/root_evil, W/rootX (only as first segment), with either slash
 ABS_TOKENS = ['@/root', '@/root_evil', '@/rootX', '@/Root', '@\\root', '@\\root_evil', '@\\rootX']
 FIRSTS = SEGS + ABS_TOKENS
+SEGS_LOOK = ['\u2025', '\uff0e\uff0e', '\u2025\uff0fsecret.txt', '\uff0e\uff0e\uff0fsecret.txt', 'sub\uff0f\u2025', '\u2025\uff3csecret.txt',
+             '\u2024\u2024', '..', 'sub', 'secret.txt', 'root_evil']
 
 # how the root reaches the filesystem.  (name, via)
 CONFIGS = ['abs', 'abs_slash', 'pathlike', 'rel', 'rel_dot_slash', 'rel_updown', 'chain_plain', 'chain_sub',
@@ -173,7 +175,19 @@ def make_systems(world: World) -> dict:
     ch = FileSystemChain()
     ch.add_sys(RawFileSystem(root + '/'), 'sub/', priority=True)
     out['chain_sub_slash'] = (ch, 'sub/')
+    # an UNCONSTRAINED file system on the same root: asked for every path first (anything it answers is legitimate for it);
+    # nothing it did may change what the constrained systems answer afterwards
+    out['__twin'] = (RawFileSystem(root, constrain_path=False), '')
     return out
+
+
+def ask_twin(systems: dict, p: str) -> None:
+    twin = systems['__twin'][0]
+    for fn in (lambda: p in twin, lambda: twin[p], lambda: twin.open_bin(p).close(), lambda: list(itertools.islice(twin.walk_folder(p), 4))):
+        try:
+            fn()
+        except Exception:  # noqa: BLE001 - the twin's own behaviour is not under test
+            pass
 
 
 NOTFOUND = (FileNotFoundError, NotADirectoryError, IsADirectoryError)
@@ -476,6 +490,12 @@ def shard_paths(spec):
     with head.  The map (segs, seps) -> string is injective (no segment contains a separator, the absolute
     tokens contain a directory name no other spelling produces), so each path string is met once."""
     head, n, mode = spec
+    if head and head[0] == '__look__':
+        # characters that only LOOK like dots and slashes (compatibility forms): ordinary name characters, never separators
+        for segs in itertools.product(SEGS_LOOK, repeat=n):
+            for seps in sep_assignments(n, mode):
+                yield list(segs), seps
+        return
     rest = n - len(head)
     assigns = sep_assignments(n, mode)
     for tail in itertools.product(SEGS, repeat=rest):
@@ -499,6 +519,7 @@ def shard(spec) -> core.Acc:
             p = spell(world, segs, seps)
             n_paths += 1
             cand_cache: dict = {}
+            ask_twin(systems, p)
             for cfg in CONFIGS:
                 fs, prefix = systems[cfg]
                 if prefix not in cand_cache:
@@ -547,7 +568,10 @@ def plan(quick: bool) -> tuple[list, str]:
                             shards.append(((f, s, s2), n, mode))
                     else:
                         shards.append(((f, s), n, mode))
+    for n in (1, 2, 3):
+        shards.append((('__look__',), n, 'four'))
     shards.append(((), 0, 'all'))      # the empty path
+    desc += '; plus every path of <= 3 segments over 11 segments containing compatibility look-alikes of ".." and "/" (U+2025, U+FF0E, U+FF0F, U+FF3C, U+2024)'
     return shards, desc
 
 
@@ -602,6 +626,7 @@ def replay(case: dict) -> list:
             fs, prefix = systems[case['cfg']]
             narrow, broad = candidates(world, prefix, p)
             # the recorded history for one path on one file-system object is the fixed operation sequence
+            ask_twin(systems, p)
             for op in OPS_SEQ:
                 check_call(acc, world, case['cfg'], fs, prefix, op, segs, seps, p, narrow, broad)
             return [f for f in acc.all_failures() if f.case.get('op') == case['op']]
